@@ -118,6 +118,9 @@ PROGRAMS = {
     "lit_add_pz": ("0.0 + 0.0", {}), "lit_add_nz": ("-0.0 + -0.0", {}), "lit_one_i": ("1 + 1", {}), "lit_one_u": ("1u + 1u", {}), "lit_one_d": ("1.0 + 1.0", {}),
     "lit_seven_i": ("7 / 2", {}), "lit_seven_u": ("7u / 2u", {}), "lit_seven_d": ("7.0 / 2.0", {}),
 }
+# a program nested deeply enough to need the recursion limit the library sets: its outcome must not depend on which
+# environments were created before
+PROGRAMS["deep"] = ("x" + "+(x" * 60 + ")" * 60, {"x": "int"})
 LITERAL_FAMILY = [p_ for p_ in PROGRAMS if p_.startswith("lit_")]
 
 
@@ -140,6 +143,7 @@ BINDINGS = {
 }
 for _p in LITERAL_FAMILY:
     BINDINGS[_p] = [{}]
+BINDINGS["deep"] = [{"x": 1}]
 
 
 def histories(tier, rng):
@@ -166,6 +170,9 @@ def histories(tier, rng):
         for a, b in itertools.permutations(LITERAL_FAMILY, 2):
             if a.split("_")[1] == b.split("_")[1]:
                 hs.append([(a, r, 0), (b, r, 0)])
+    # (2d) the deep program after an environment of either runner class was created and used
+    for r1, r2 in itertools.product(runners, repeat=2):
+        hs.append([("sum", r1, 0), ("deep", r2, 0)])
     # (3) longer random histories
     for _ in range(200 if tier == "thorough" else 25):
         hs.append([rng.choice(evals) for _ in range(rng.choice((3, 4)))])
